@@ -171,6 +171,36 @@ fn main() {
     };
     let s9 = explore(&sigma9, l9);
     let s12 = explore(&sigma12, l12);
+    // integer sanitiser on its own alphabet (sign characters, white space, non-ASCII digit) and on
+    // long digit strings around the u32/u64/u128 boundaries (with and without leading zeros)
+    let ui = sets.iter().position(|s| s.preset == Some("uint")).unwrap();
+    let sigma_uint: Vec<&str> = vec!["0", "1", "9", "+", "-", " ", "a", ".", "٣"];
+    let su = for_each_string(&sigma_uint, if ctx.quick() { 5 } else { 7 }, |x, _n, st| {
+        st.inc("strings");
+        st.inc("evaluations");
+        st.inc("uint_space");
+        if let Some((class, detail)) = judge(x, &sets[ui], &built[ui], st) {
+            ctx.violation(&class, format!("{x:?} [{}]", sets[ui].name), json!({"input": x, "setting": sets[ui].name}), detail);
+        }
+    });
+    let mut sb = Stats::default();
+    for base in ["4294967295", "4294967296", "18446744073709551615", "18446744073709551616", "99999999999999999999",
+        "340282366920938463463374607431768211455", "340282366920938463463374607431768211456", "1000000000000000000000000000000000000000000"] {
+        for pre in ["", "0", "000", "+", "-", " "] {
+            for suf in ["", "0", "a", " "] {
+                let x = format!("{pre}{base}{suf}");
+                for i in 0..sets.len() {
+                    sb.inc("evaluations");
+                    sb.inc("boundary_numerals");
+                    if let Some((class, detail)) = judge(&x, &sets[i], &built[i], &mut sb) {
+                        ctx.violation(&class, format!("{x:?} [{}]", sets[i].name), json!({"input": x, "setting": sets[i].name}), detail);
+                    }
+                }
+                sb.inc("strings");
+            }
+        }
+    }
+    let s12 = s12.merge(su).merge(sb);
     // determinism replay: re-run a slice, digests must agree
     let d1 = explore(&sigma9, 3);
     let d2 = explore(&sigma9, 3);
